@@ -1,38 +1,145 @@
 """C20 plug-in: the schedule clause under the Go race detector.
 The same harness is built with -race and the C20 cases are run again (16 goroutines per
-case on shared inputs); any report of the race detector is a violation whose replay is
-the report itself plus the case that was running."""
-import os, subprocess, json, hashlib, re
+case on shared inputs, the first use of every entry concurrent).  The twin's outcome is
+JUDGED, never merely counted:
+  * its case lines go through the extracted comparator (vmodel) like those of the plain run
+    (a conc = 0 / det = 0 / modification seen only in the -race build, the warm-up line, the
+    canaries) - a mismatch is a violation with the case as replay;
+  * every report of the race detector is a violation, EXCEPT the reports on the harness's own
+    racy canary (harness/c20canary.go, c20CanaryRaceFn), of which at least one is DEMANDED
+    (a twin that reports nothing at all is blind);
+  * an exit status other than 0 / 66, a fatal runtime error (concurrent map writes, ...), a
+    hang, a missing end-of-generation sentinel, a time-out or a failing -race build is a
+    violation (crash/hang) or a machinery failure (exit 2) - never a pass.
+Self-test of the hand-written coverage list: every name in c20StaticCovered must really be
+called in harness/c20.go."""
+import os, subprocess, json, hashlib, re, sys
 
 
 def describe(line, verdict, case_json):
-    pos = {0: "an argument outside the routine's footprint was modified", 1: "results differ between two calls on equal arguments (after unrelated calls)",
+    pos = {0: "an argument outside the routine's footprint was modified", 1: "results differ between two calls on equal arguments (after unrelated calls, on reused arrays, or in a fresh process)",
            2: "concurrent results differ from the sequential one, or a shared input was modified", 3: "a documented in-place operation changed nothing",
-           4: "an exported function/method taking a slice, Sample, graph or distribution is exercised by no entry of the harness table (the property quantifies over every such function; it is neither modelled nor run)", -1: "ok"}
+           4: "an exported function/method taking a slice, Sample, graph or distribution is exercised by no entry of the harness table (the property quantifies over every such function; it is neither modelled nor run)",
+           5: "a library call of the case panicked: nothing was compared",
+           6: "a canary of the harness (a deliberately impure / history-dependent / schedule-dependent function defined in harness/c20canary.go) was NOT flagged as it must be: the harness is blind in that stage",
+           -1: "ok"}
     n = line[2]
-    return dict(routine=line[1], nargs=n, mutated=line[3:3 + n], deterministic=line[3 + n], concurrent_ok=line[4 + n],
+    return dict(routine=line[1], nargs=n, mutated=line[3:3 + n], deterministic=line[3 + n], concurrent_ok=line[4 + n], panics=line[5 + n],
                 meaning=pos.get(verdict[2], "?"), case=json.loads(case_json))
+
+
+def _die(msg):
+    print("[check] MACHINERY FAILURE:", msg, file=sys.stderr, flush=True)
+    sys.exit(2)
+
+
+def _replay(root, kind, payload):
+    os.makedirs(os.path.join(root, "replays"), exist_ok=True)
+    h = hashlib.sha1(json.dumps(payload, sort_keys=True).encode()).hexdigest()[:12]
+    path = "replays/C20-%s-%s.json" % (kind, h)
+    json.dump(dict(payload, property_id="C20", kind=kind), open(os.path.join(root, path), "w"), indent=1)
+    return path
+
+
+def _static_coverage_selftest(root):
+    """every API name the hand-written table claims to exercise is really called in harness/c20.go"""
+    src = open(os.path.join(root, "harness", "c20.go")).read()
+    m = re.search(r"var c20StaticCovered = \[\]string\{(.*?)\n\}", src, re.S)
+    if not m:
+        _die("C20 self-test: c20StaticCovered not found in harness/c20.go")
+    names = re.findall(r'"([^"]+)"', m.group(1))
+    body = src[:m.start()] + src[m.end():]
+    missing = []
+    for n in names:
+        parts = n.split(".")
+        if len(parts) == 2:
+            pat = r"\b%s\.%s\b" % (re.escape(parts[0]), re.escape(parts[1]))
+        else:
+            pat = r"\.%s\(" % re.escape(parts[-1])
+        if not re.search(pat, body):
+            missing.append(n)
+    if missing:
+        _die("C20 self-test: c20StaticCovered claims %s but harness/c20.go never calls them" % missing)
+    return len(names)
+
+
+def _vmodel(root, lines):
+    r = subprocess.run(["bash", "-c", "ulimit -s unlimited 2>/dev/null; exec build/vmodel/vmodel"], cwd=root,
+                       input="\n".join(l.split("#")[0] for l in lines) + "\n", capture_output=True, text=True, timeout=900)
+    out = [v for v in r.stdout.split("\n") if v.strip()]
+    if r.returncode != 0 or len(out) != len(lines):
+        _die("vmodel failed on the lines of the -race twin: %s %s" % (r.stdout[-300:], r.stderr[-300:]))
+    try:
+        return [[int(t, 16) for t in v.split()] for v in out]
+    except ValueError:
+        _die("vmodel output on the lines of the -race twin: " + r.stdout[-300:])
 
 
 def extra(ctx):
     root, env = ctx["root"], dict(ctx["env"])
+    out = dict(static_coverage_names_checked=_static_coverage_selftest(root))
     env["VERIF_RACE"] = "1"
     r = subprocess.run(["bin/build-harness"], cwd=root, env=env, capture_output=True, text=True, timeout=2000)
     if r.returncode != 0:
-        raise SystemExit("[check] MACHINERY FAILURE: -race build failed: " + r.stdout + r.stderr)
+        _die("-race build failed: " + r.stdout + r.stderr)
     racebin = os.path.join(root, r.stdout.strip().splitlines()[-1] + "-race")
     env["GORACE"] = "halt_on_error=0 exitcode=66"
     env["C20_CONC_FIRST"] = "1"   # first use of every routine in the -race process is concurrent (lazy initialisation races)
     env["C20_NOFRESH"] = "1"      # the fresh-process reference belongs to the plain run; a -race child per case would cost a second each
+    replay_cmd = "VERIF_RACE=1 bin/build-harness && C20_CONC_FIRST=1 C20_NOFRESH=1 GORACE='halt_on_error=0 exitcode=66' build/harness-*/vharness-race gen C20 %s %d" % (ctx["tier"], ctx["seed"])
     try:
         p = subprocess.run([racebin, "gen", "C20", ctx["tier"], str(ctx["seed"])], env=env, capture_output=True, text=True,
                            timeout=900 if ctx["tier"] == "quick" else 7200)
     except subprocess.TimeoutExpired:
-        return dict(race_run="timed out", race_reports=0)
+        _die("the -race twin did not finish within its time limit (no verdict on the schedule clause)")
+    violations = []
     lines = [l for l in p.stdout.split("\n") if l.strip()]
-    reports = p.stderr.count("WARNING: DATA RACE")
-    out = dict(race_detector_cases=len(lines), race_reports=reports, race_goroutines_per_case=16, race_exit_code=p.returncode,
-               race_first_use_concurrent=True)
+    # 1. the process: exit status, fatal errors, completeness
+    blocks = [b for b in re.split(r"={18,}\n", p.stderr) if "WARNING: DATA RACE" in b]
+    canary = [b for b in blocks if "c20CanaryRaceFn" in b]
+    foreign = [b for b in blocks if "c20CanaryRaceFn" not in b]
+    m = re.search(r"\[C20\] gen complete: (\d+) cases", p.stderr)
+    out.update(race_detector_cases=len(lines), race_reports=len(foreign), race_canary_reports=len(canary), race_goroutines_per_case=16,
+               race_exit_code=p.returncode, race_first_use_concurrent=True)
+    if p.returncode not in (0, 66) or "fatal error:" in p.stderr:
+        k = p.stderr.find("fatal error:")
+        violations.append(dict(replay=_replay(root, "race-crash", dict(
+            exit_code=p.returncode, stderr=p.stderr[max(0, k - 200):][:6000] if k >= 0 else p.stderr[-6000:], replay_cmd=replay_cmd,
+            last_line=lines[-1][:2000] if lines else None,
+            explanation="the -race twin died (exit status %d): a fatal runtime error in the code under test while 16 goroutines issued library calls on shared read-only inputs (e.g. concurrent map writes)" % p.returncode)), suffix=""))
+    elif not m or int(m.group(1)) != len(lines):
+        _die("the -race twin ended without its end-of-generation sentinel or with %d lines for %s cases: %s" % (len(lines), m.group(1) if m else "?", p.stderr[-1500:]))
+    # 2. its lines: hangs, harness failures, the comparator's verdicts
+    hangs = [l for l in lines if l.startswith("!HANG")]
+    bad = [l for l in lines if l.startswith("!") and not l.startswith("!HANG")]
+    if bad:
+        _die("the -race twin rejected its own cases: " + bad[0][:600])
+    for h in hangs[:2]:
+        violations.append(dict(replay=_replay(root, "race-hang", dict(case=json.loads(h.split("#", 1)[1]), problem=h.split("#")[0].strip(), replay_cmd=replay_cmd,
+                          explanation="under the race detector and 16 goroutines the implementation did not return on this case")), suffix=""))
+    lines = [l for l in lines if not l.startswith("!")]
+    verdicts = _vmodel(root, lines) if lines else []
+    if any(v[0] == 3 for v in verdicts):
+        _die("the model rejects a line of the -race twin as malformed: " + lines[[v[0] for v in verdicts].index(3)][:400])
+    seen = set()
+    for l, v in zip(lines, verdicts):
+        if v[0] >= 2 and (v[1], v[2]) not in seen and len(seen) < 3:
+            seen.add((v[1], v[2]))
+            cj = l.split("#", 1)[1].strip()
+            ints = [int(t, 16) for t in l.split("#")[0].split()]
+            violations.append(dict(replay=_replay(root, "race-case", dict(case=json.loads(cj), line=l.split("#")[0].strip(), verdict=v, decoded=describe(ints, v, cj),
+                              replay_cmd=replay_cmd, explanation="a case line of the -race twin (first use of every entry concurrent, 16 goroutines, race detector on) is rejected by the comparator")), suffix=""))
+    out["race_twin_mismatches"] = sum(1 for v in verdicts if v[0] >= 2)
+    out["race_twin_canary_lines"] = sum(1 for v in verdicts if v[1] == 8)
+    # 3. the race detector's reports
+    if foreign:
+        first = foreign[0][:6000]
+        funcs = sorted(set(re.findall(r"github\.com/aclements/go-moremath/[\w/]+\.[\w\.\(\)\*]+", first)))[:12]
+        violations.append(dict(replay=_replay(root, "race", dict(reports=len(foreign), functions=funcs, first_report=first, replay_cmd=replay_cmd,
+                          explanation="the Go race detector reported a data race while 16 goroutines issued library calls on shared read-only inputs")), suffix=""))
+    if not canary and not violations:
+        violations.append(dict(replay=_replay(root, "race-blind", dict(stderr_tail=p.stderr[-3000:], replay_cmd=replay_cmd,
+                          explanation="the -race twin did not report the data race of the harness's own racy canary (c20CanaryRaceFn): the race detection stage is blind, the schedule clause was not checked")), suffix=""))
     # machinery note: the API surface of the tree under test (go/parser scan made by the harness)
     try:
         env2 = dict(ctx["env"]); env2["C20_LIST_API"] = "1"
@@ -44,16 +151,6 @@ def extra(ctx):
             out["api_not_called"] = {"graphout.Dot.Print": "writes to os.Stdout (the harness's result channel); = Fprint(os.Stdout, g)"}
     except Exception as e:                                   # a note only
         out["api_surface_note_error"] = str(e)
-    if reports or p.returncode == 66:
-        first = p.stderr[p.stderr.find("WARNING: DATA RACE"):][:6000]
-        # the call names involved (from the stack frames of the report)
-        funcs = sorted(set(re.findall(r"github\.com/aclements/go-moremath/[\w/]+\.[\w\.\(\)\*]+", first)))[:12]
-        os.makedirs(os.path.join(root, "replays"), exist_ok=True)
-        h = hashlib.sha1(first.encode()).hexdigest()[:12]
-        path = "replays/C20-race-%s.json" % h
-        json.dump(dict(property_id="C20", kind="race", reports=reports, functions=funcs, first_report=first,
-                       replay_cmd="VERIF_RACE=1 bin/build-harness && GORACE=halt_on_error=1 build/harness-*/vharness-race gen C20 %s %d" % (ctx["tier"], ctx["seed"]),
-                       explanation="the Go race detector reported a data race while 16 goroutines issued library calls on shared read-only inputs"),
-                  open(os.path.join(root, path), "w"), indent=1)
-        out["violations"] = [dict(replay=path, suffix="")]
+    if violations:
+        out["violations"] = violations
     return out
